@@ -95,7 +95,7 @@ def finish(ctx: Ctx, level: str = "other") -> int:
 
     if not violations:   # a rule that lost its sites must not pass vacuously
         for prefix, n in ctx.minimums.items():
-            got = sum(1 for o in ctx.obs if o.rule.startswith(prefix) and o.verdict != UNVERIFIED)
+            got = sum(1 for o in ctx.obs if o.rule.startswith(prefix))
             if got < n:
                 raise AnalysisError(
                     f"rule {prefix} matched {got} instances, fewer than the {n} confirmed on the reference tree "
